@@ -25,7 +25,7 @@ import (
 const c29Imports = "From Verif Require Import Model.Handles Model.Backend Model.Srv Corr.SrvCase Corr.C29."
 
 func init() {
-	Props["C29"] = &Prop{Imports: c29Imports, Gen: genDistinct, ShardSize: 8,
+	Props["C29"] = &Prop{Imports: c29Imports, Gen: genDistinct, Corpus: corpusDistinct, ShardSize: 8,
 		NonTrivial: func(c *Case) bool { return c.Tags["overlapping-pairs"] > 0 && c.Tags["backend-mutations"] > 0 }}
 	Props["C29b"] = &Prop{Imports: c29Imports, Gen: genCached, Corpus: corpusCached, ShardSize: 8,
 		NonTrivial: func(c *Case) bool { return c.Tags["overlapping-pairs"] > 0 && c.Tags["backend-mutations"] > 0 }}
@@ -36,11 +36,12 @@ func init() {
 // ---------------------------------------------------------------------------------------------------------
 
 type noise struct {
-	mu     sync.Mutex
-	r      *Rand
-	on     atomic.Bool
-	yields atomic.Int64
-	sleeps atomic.Int64
+	readWindow bool // light noise everywhere, long stalls only right after a backend ReadAt has returned
+	mu         sync.Mutex
+	r          *Rand
+	on         atomic.Bool
+	yields     atomic.Int64
+	sleeps     atomic.Int64
 }
 
 func (n *noise) pause() {
@@ -50,6 +51,13 @@ func (n *noise) pause() {
 	n.mu.Lock()
 	x, d := n.r.Intn(100), n.r.Intn(40)
 	n.mu.Unlock()
+	if n.readWindow {
+		if x < 30 {
+			n.yields.Add(1)
+			runtime.Gosched()
+		}
+		return
+	}
 	switch {
 	case x < 45:
 	case x < 75:
@@ -138,6 +146,20 @@ func (sc *script) after(op, p string) {
 	if fire != nil {
 		sc.signal(fire.signal)
 		sc.wait(fire.wait)
+	}
+}
+
+// afterRead: the window between a READ's backend read and the encoding of its reply (readWindow mode)
+func (n *noise) afterRead() {
+	if n == nil || !n.on.Load() || !n.readWindow {
+		return
+	}
+	n.mu.Lock()
+	x, d := n.r.Intn(100), n.r.Intn(40)
+	n.mu.Unlock()
+	if x < 65 {
+		n.sleeps.Add(1)
+		time.Sleep(time.Duration(300+70*d) * time.Microsecond)
 	}
 }
 
@@ -230,6 +252,9 @@ type delayFile struct {
 
 func (f *delayFile) post(op string) {
 	f.n.pause()
+	if op == "ReadAt" {
+		f.n.afterRead()
+	}
 	f.sc.after(op, f.path)
 }
 
@@ -260,6 +285,7 @@ func (f *delayFile) Readdir(n int) ([]os.FileInfo, error) {
 // ---------------------------------------------------------------------------------------------------------
 
 type cfg29 struct {
+	ReadWindow              bool // schedule noise concentrated after backend reads (not part of the server configuration)
 	AttrTTL, NegTTL, DirTTL time.Duration
 	NegOn, DirOn            bool
 	AttrCap                 int // 0 = 10000
@@ -654,7 +680,7 @@ type runResult struct {
 const watchdog = 20 * time.Second
 
 func execute(c cfg29, schedSeed uint64, populate func(fs *specfs.FS), setup func(rc *runCtx) []*client, programs [][]act, trackHist bool, sc *script) *runResult {
-	n := &noise{r: NewRand(schedSeed, 77)}
+	n := &noise{r: NewRand(schedSeed, 77), readWindow: c.ReadWindow}
 	e := newEnv(c, n, sc, populate)
 	defer e.NFS.Close()
 	rc := &runCtx{e: e, h2p: map[uint64]string{}, issued: map[[2]string]bool{}, names: map[string]bool{}}
@@ -760,6 +786,8 @@ func execute(c cfg29, schedSeed uint64, populate func(fs *specfs.FS), setup func
 	res.probeB, _ = probe(twin, res.final, names)
 	return res
 }
+
+func sortStrings(xs []string) { sort.Strings(xs) }
 
 func uniq(xs []string) []string {
 	var out []string
@@ -956,9 +984,13 @@ func (res *runResult) toCase(mode int, c cfg29, kind string, idx int, tags map[s
 	for _, k := range ikeys {
 		issued = append(issued, fmt.Sprintf("(%s, %s)", k[0], nfsx.CoqPath(k[1])))
 	}
-	coq := fmt.Sprintf("{| k_mode := %d; k_cfg := %s; k_init := %s; k_paths := %s; k_ops := %s; k_final := %s; k_hist := %s; k_probe := %s; k_table := %s; k_issued := %s; k_acsize := %d; k_dcsize := %d; k_gor0 := %d; k_gor1 := %d; k_deadlock := %s; k_panic := %s |}",
+	raceB, raceTxt := raceMark()
+	if raceB == "true" {
+		tags["race-report"] = 1
+	}
+	coq := fmt.Sprintf("{| k_mode := %d; k_cfg := %s; k_init := %s; k_paths := %s; k_ops := %s; k_final := %s; k_hist := %s; k_probe := %s; k_table := %s; k_issued := %s; k_acsize := %d; k_dcsize := %d; k_gor0 := %d; k_gor1 := %d; k_deadlock := %s; k_panic := %s; k_race := %s |}",
 		mode, c.coq(), nfsx.CoqDump(res.init), CList(ptab), CList(ops), nfsx.CoqDump(res.final), CList(hist), CList(probes),
-		CList(table), CList(issued), res.acSize, res.dcSize, res.gor0, res.gor1, CBool(res.deadlock), CBool(rc.panics.Load() > 0))
+		CList(table), CList(issued), res.acSize, res.dcSize, res.gor0, res.gor1, CBool(res.deadlock), CBool(rc.panics.Load() > 0), raceB)
 	tags["ops"] = len(rc.ops)
 	tags["overlapping-pairs"] = res.overlaps
 	tags["backend-mutations"] = res.mutations
@@ -986,7 +1018,7 @@ func (res *runResult) toCase(mode int, c cfg29, kind string, idx int, tags map[s
 		}
 	}
 	return Case{Index: idx, Kind: kind, Coq: coq, Tags: tags, Key: key.String(),
-		Text: head + "\n" + strings.Join(txt, "\n") + "\nfinal: " + strings.Join(fin, " ")}
+		Text: head + "\n" + strings.Join(txt, "\n") + "\nfinal: " + strings.Join(fin, " ") + raceTxt}
 }
 
 // ---------------------------------------------------------------------------------------------------------
@@ -1013,6 +1045,13 @@ func genDistinct(r0 *Rand, idx int, tier string) Case {
 	c := cfg29{AttrTTL: 1, NegTTL: 1, DirTTL: 1}
 	k := 2 + r.Intn(3)
 	shared := r.Chance(65)
+	// one history in five aims at the window between a READ's backend read and its reply: every client owns a
+	// file with data, READs of it make up almost half of the requests, the long stalls come right after ReadAt
+	readWin := r.Chance(20)
+	if readWin {
+		c.ReadWindow = true
+		k = 3 + r.Intn(2)
+	}
 	tags := map[string]int{"clients": k}
 	kinds := []string{"CREATE", "MKDIR", "SYMLINK", "LOOKUP", "REMOVE", "RMDIR", "RENAME", "READDIR", "READDIRPLUS", "GETATTRDIR",
 		"GETATTR", "ACCESS", "READ", "WRITE", "SETATTR", "READLINK", "COMMIT", "BOGUS"}
@@ -1036,7 +1075,7 @@ func genDistinct(r0 *Rand, idx int, tier string) Case {
 		if shared {
 			base = append(base, dslot{1, "/sh"})
 		}
-		if r.Chance(45) {
+		if r.Chance(45) || readWin {
 			d := base[r.Intn(len(base))]
 			pl.preDir = d.slot
 			sim.kind[join(d.path, pl.own[0])], sim.known[join(d.path, pl.own[0])] = 'f', true
@@ -1048,7 +1087,11 @@ func genDistinct(r0 *Rand, idx int, tier string) Case {
 			if sp := join(subParent.path, pl.sub); sim.kind[sp] == 'd' {
 				dirs = append(append([]dslot{}, base...), dslot{2, sp}, dslot{2, sp})
 			}
-			programs[i] = append(programs[i], genSensible(r, sim, dirs, pl.own[:3], pl.sub, subParent.slot, kinds, weights))
+			a := genSensible(r, sim, dirs, pl.own[:3], pl.sub, subParent.slot, kinds, weights)
+			if readWin && r.Chance(45) {
+				a = act{kind: "READ", dir: pl.preDir, name: pl.own[0], off: PickU64(r, 0, 0, 1, 2), cnt: uint32(PickInt(r, 4, 16, 64))}
+			}
+			programs[i] = append(programs[i], a)
 		}
 		plans[i] = pl
 	}
@@ -1075,7 +1118,9 @@ func genDistinct(r0 *Rand, idx int, tier string) Case {
 				nm := cl.own[0]
 				if o := rc.do(99, cl.cred, &nfsx.Req{Proc: "CREATE", H: cl.dirH[d], Name: []byte(nm)}, nil, false); o.FH != nil {
 					cl.objH[join(cl.dirP[d], nm)] = *o.FH
-					rc.do(99, cl.cred, &nfsx.Req{Proc: "WRITE", H: *o.FH, Off: 0, Cnt: 5, Stable: 2, Data: []byte("hello")}, nil, false)
+					// contents that identify the owner (a reply carrying another client's bytes must be visible)
+					data := []byte(fmt.Sprintf("c%d:%s", i, strings.Repeat(string(rune('a'+i)), 13)))
+					rc.do(99, cl.cred, &nfsx.Req{Proc: "WRITE", H: *o.FH, Off: 0, Cnt: uint32(len(data)), Stable: 2, Data: data}, nil, false)
 				}
 			}
 			cls = append(cls, cl)
@@ -1084,6 +1129,10 @@ func genDistinct(r0 *Rand, idx int, tier string) Case {
 	}
 	res := execute(c, r0.U64(), nil, setup, programs, false, nil)
 	tags["shared-subdir"] = map[bool]int{false: 0, true: 1}[shared]
+	if readWin {
+		tags["read-window-noise"] = 1
+		return res.toCase(0, c, "distinct-names, read-window noise", idx, tags)
+	}
 	return res.toCase(0, c, "distinct-names", idx, tags)
 }
 
